@@ -103,6 +103,39 @@ def digest(case) -> str:
     return hashlib.sha1(s.encode()).hexdigest()[:16]
 
 
+def _patch_bytestring_provider():
+    """Hypothesis 6.168's BytestringProvider (the decoder behind fuzz_one_input) draws a bounded integer as
+    `bits(max-min)` raw bits and compares them with [min, max] WITHOUT adding min, so any range whose lower
+    bound exceeds its width (integers(126, 130), timestamps, ...) can never be satisfied and the whole buffer
+    is rejected as an overrun.  Most of our strategies contain such a range, so the coverage-guided shard
+    would execute nothing.  The fixed decoder offsets by min.  Only the fuzz shard uses it."""
+    try:
+        import hypothesis.core as hc
+        from hypothesis.internal.conjecture.providers import BytestringProvider
+    except Exception:  # other Hypothesis version: leave it alone
+        return
+
+    class OffsetBytestringProvider(BytestringProvider):
+        def draw_integer(self, min_value=None, max_value=None, *, weights=None, shrink_towards=0):
+            if min_value is None and max_value is None:
+                min_value, max_value = -(2 ** 127), 2 ** 127 - 1
+            elif min_value is None:
+                min_value = max_value - 2 ** 64
+            elif max_value is None:
+                max_value = min_value + 2 ** 64
+            if min_value == max_value:
+                return min_value
+            width = max_value - min_value
+            bits = width.bit_length()
+            value = self._draw_bits(bits)
+            while value > width:
+                value = self._draw_bits(bits)
+            return min_value + value
+
+    if getattr(hc, "BytestringProvider", None) is BytestringProvider:
+        hc.BytestringProvider = OffsetBytestringProvider
+
+
 # --------------------------------------------------------------------------- failures
 class Violation(Exception):
     def __init__(self, clause, detail=None, sig=None):
@@ -319,6 +352,7 @@ class Ctx:
         self._part = "fuzz:" + name
         runner = self._wrap(run_case)
         last = {}
+        _patch_bytestring_provider()
         db = InMemoryExampleDatabase()
         seed = self.seed_for("fuzz:" + name)
 
@@ -339,7 +373,21 @@ class Ctx:
         fuzz_one = make([Phase.generate], 1).hypothesis.fuzz_one_input
         st = {"execs": 0, "t0": time.time()}
 
+        # starting corpus: pseudo-random buffers (pure function of the seed) long enough for Hypothesis to draw a
+        # whole case from; an empty corpus makes libFuzzer spend its first thousands of runs on buffers that are
+        # too short to decode.  libFuzzer also tries the empty input by itself.
+        import random as _random
+        import shutil
+
+        corpus = os.path.join(WORK, "fuzzcorpus-%s-%d" % (self.prop, os.getpid()))
+        os.makedirs(corpus, exist_ok=True)
+        rnd = _random.Random(seed)
+        for i in range(48):
+            with open(os.path.join(corpus, "seed%02d" % i), "wb") as f:
+                f.write(rnd.randbytes(rnd.choice([256, 1024, 2048, 4096, 8192])))
+
         def finish(rc=0):
+            shutil.rmtree(corpus, ignore_errors=True)
             self.extra["fuzz_execs"] = st["execs"]
             self.extra["fuzz_parts"] = {name: {"execs": st["execs"], "cases": self.parts.get(self._part, 0),
                                                "wall_s": round(time.time() - st["t0"], 1)}}
@@ -377,7 +425,7 @@ class Ctx:
 
         argv = [sys.argv[0], "-runs=%d" % (self.fuzz["runs"] * 4 + 1000), "-seed=%d" % (seed % (2 ** 31 - 1) + 1),
                 "-max_len=16384", "-len_control=0", "-timeout=3600", "-rss_limit_mb=8192", "-print_final_stats=1", "-verbosity=1"]
-        atheris.Setup(argv, one)
+        atheris.Setup(argv + [corpus], one)
         atheris.Fuzz()
         finish(0)
 
@@ -624,7 +672,7 @@ def main(argv=None):
     ap.add_argument("--shards", type=int)
     ap.add_argument("--fuzz-part", type=int)  # internal: coverage-guided shard for the i-th explore() call
     ap.add_argument("--fuzz-runs", type=int, default=20000)
-    ap.add_argument("--fuzz-seconds", type=int, default=600)
+    ap.add_argument("--fuzz-seconds", type=int, default=300)
     args = ap.parse_args(argv)
 
     if os.environ.get("PYTHONHASHSEED") != "0":
@@ -688,7 +736,7 @@ def main(argv=None):
         for i in range(nfuzz):
             rp = os.path.join(WORK, "%s-fuzz%d.json" % (tag, i))
             cmd = [sys.executable, os.path.join(VERIF, "check"), prop, "--tier", args.tier, "--fuzz-part", str(i),
-                   "--fuzz-runs", str(getattr(mod, "FUZZ_RUNS", 20000)), "--fuzz-seconds", str(getattr(mod, "FUZZ_SECONDS", 600)),
+                   "--fuzz-runs", str(getattr(mod, "FUZZ_RUNS", 20000)), "--fuzz-seconds", str(getattr(mod, "FUZZ_SECONDS", 300)),
                    "--result", rp]
             fuzz_procs.append((i, rp, subprocess.Popen(cmd, stdout=subprocess.PIPE, stderr=subprocess.PIPE, text=True)))
         results = []
@@ -709,7 +757,7 @@ def main(argv=None):
             # the coverage-guided shard is an extra: if it cannot run (time budget, libFuzzer trouble) that is
             # recorded as inconclusive in the evidence and never decides the outcome
             try:
-                out, err = p.communicate(timeout=getattr(mod, "FUZZ_SECONDS", 600) * 3 + 600)
+                out, err = p.communicate(timeout=getattr(mod, "FUZZ_SECONDS", 300) * 3 + 600)
             except subprocess.TimeoutExpired:
                 p.kill()
                 out, err = p.communicate()
